@@ -155,9 +155,10 @@ Proof. exact maybe_raise_code. Qed.
 Print Assumptions C04_maybe_raise_code.
 
 (* the complete correspondence matrix (11520 cells incl. the sixth event kind, status and variant dimensions), inside the
-   model and on the generated operations: pending at quiescence EXACTLY in the D6 class; everywhere else
-   the operation ends with a termination error and the call with exactly the error the property asks
-   for, except the quiet-exit class (second finding) and cells asking for a refused call *)
+   model and on the generated operations: pending at quiescence EXACTLY in the D6 class (hence
+   `_partial`); everywhere else -- also for a context exit entered after a connection-level event -- the
+   operation ends with a termination error and the call with exactly the error the property asks for
+   (cells asking for a refused call: ProtocolError) *)
 Theorem C04_matrix_pending_is_exactly_d6_partial :
   forall c, In c all_cells ->
     let p := predict client_ops c in
@@ -169,17 +170,15 @@ Theorem C04_matrix_pending_is_exactly_d6_partial :
        is_pending (p_late p) = (is_pending (p_op p) && negb (c_deadline c)) /\
        (is_pending (p_op p) = false ->
           if misuse_class c then p_op p = OProtocol
-          else if quiet_exit_class c then p_op p = OOk /\ p_ctx p = OOk
           else is_term_error (p_op p) = true /\ p_ctx p = expected_ctx c)).
 Proof. exact matrix_pending_is_exactly_d6. Qed.
 Print Assumptions C04_matrix_pending_is_exactly_d6_partial.
 
-(* Full strength of the last clause (no quiet-exit exception) is FALSE of the faithful model -- second
-   finding: the server had answered NOT_FOUND (trailers), the connection is lost, the body ends normally:
-   the wrapper holds StreamTerminatedError, yet __aexit__ returns normally instead of GRPCError(5). *)
-Theorem C04_context_exit_after_conn_event_refuted :
+(* the former finding D35, repaired: the server had answered NOT_FOUND (trailers), the connection is
+   lost, the body ends normally: __aexit__ raises GRPCError(5) *)
+Theorem C04_context_exit_after_conn_event_raises :
   let p := predict client_ops quiet_exit_cell in
-  p_setup p = SOk /\ p_registered p = true /\ p_werr p = OTerminated /\ p_op p = OOk /\ p_ctx p = OOk
-  /\ expected_ctx quiet_exit_cell = OGrpc 5.
-Proof. exact context_exit_after_conn_event_refuted. Qed.
-Print Assumptions C04_context_exit_after_conn_event_refuted.
+  p_setup p = SOk /\ p_registered p = true /\ p_werr p = OTerminated /\ p_op p = OGrpc 5
+  /\ p_ctx p = OGrpc 5 /\ expected_ctx quiet_exit_cell = OGrpc 5.
+Proof. exact context_exit_after_conn_event_raises. Qed.
+Print Assumptions C04_context_exit_after_conn_event_raises.
